@@ -600,6 +600,16 @@ func (fr *Frame) applyContract(fc *FuncContract, callee *ssa.Function, args []Va
 		}
 		vc.assume(pc, g)
 	}
+	// `trusts`: a postcondition that is NOT proved for the callee (engine limit), assumed at call sites and listed
+	for _, cl := range fc.Of("trusts") {
+		g, err := env2.evalBool(cl.Expr)
+		if err != nil {
+			vc.contractError(cl, err)
+			continue
+		}
+		vc.assume(pc, g)
+		vc.UsedAssumed["unproved postcondition of "+fc.Key+" assumed by its callers: "+cl.Expr.String()] = true
+	}
 	return res, pc
 }
 
